@@ -1,6 +1,8 @@
 //! wharness: drives the real walrus (path dependency on /repo) for the correspondence checks
 //! and the property oracles. One sub-command per suite; see `out.rs` for the output protocol.
 mod arena;
+mod decode;
+mod gen;
 mod out;
 mod rng;
 
@@ -28,6 +30,21 @@ fn main() {
     out::quiet_panics();
     match suite {
         "arena" => arena::main(seed, &tier, only.as_deref()),
+        "gentest" => {
+            // generator self-test: how often are generated modules valid, what do they contain
+            let mut rejected = 0;
+            let mut ops = std::collections::BTreeMap::new();
+            for case in 0..300u64 {
+                let mut rng = rng::Rng::new(seed, case);
+                let cfg = if case % 3 == 0 { gen::GenCfg::mvp() } else if case % 3 == 1 { gen::GenCfg::full() } else { gen::GenCfg::random(&mut rng) };
+                let (wasm, rej) = gen::gen_valid(&mut rng, &cfg);
+                rejected += rej;
+                let m = decode::decode(&wasm).unwrap();
+                for b in &m.code { for o in &b.ops { *ops.entry(o.name).or_insert(0usize) += 1; } }
+            }
+            println!("rejected {} distinct ops {}", rejected, ops.len());
+            println!("{:?}", ops);
+        }
         _ => {
             eprintln!("unknown suite {:?}", suite);
             std::process::exit(2);
